@@ -343,6 +343,8 @@ class ConfEval:
                     return (a in b) ^ neg
                 if any(x is a or (isinstance(a, Sym) and x == a) for x in b):
                     return True ^ neg
+                if isinstance(a, Sym) and all(isinstance(x, str) for x in b):
+                    return self.choice(node, f"in-list:{a!r}:{sorted(b)!r}") ^ neg
                 return self.choice(node, "in-list") ^ neg
             if isinstance(b, str) and isinstance(a, str):
                 return (a in b) ^ neg
